@@ -93,6 +93,10 @@ def gen(ctx: Any, n: int, prof: Prof, meta_only: bool = False) -> Any:
         for sp in _splits(n - 1, 2):
             for mvk in range(prof.metavars):
                 opts.append(('ri', sp, mvk))
+        if n >= 4 and prof.metavars >= 2:
+            for sp in _splits(n - 1, 3):
+                opts.append(('ri2', sp, (0, 1)))
+                opts.append(('ri2', sp, (1, 0)))
     if not meta_only:
         for nt in prof.notations:
             if nt.arity >= 1 and _fits(nt, n):
@@ -146,6 +150,11 @@ def gen(ctx: Any, n: int, prof: Prof, meta_only: bool = False) -> Any:
 
         body = gen(ctx, o[1][0], prof)
         return P.Instantiate(body, frozendict({o[2]: gen(ctx, o[1][1], prof)}))
+    if k == 'ri2':
+        from frozendict import frozendict
+
+        body = gen(ctx, o[1][0], prof)
+        return P.Instantiate(body, frozendict({o[2][0]: gen(ctx, o[1][1], prof), o[2][1]: gen(ctx, o[1][2], prof)}))
     if k == 'nt':
         args = [gen(ctx, s, prof) for s in o[2]]
         return o[1](*args)
@@ -179,6 +188,9 @@ def count_shapes(n: int, prof: Prof) -> int:
                     t += 2 * c(a, True) * c(b, False)
                 if prof.raw_inst and not meta_only:
                     t += prof.metavars * c(a, False) * c(b, False)
+            if prof.raw_inst and not meta_only and n >= 4 and prof.metavars >= 2:
+                for a, b, d in _splits(n - 1, 3):
+                    t += 2 * c(a, False) * c(b, False) * c(d, False)
         if not meta_only:
             for nt in prof.notations:
                 if nt.arity >= 1 and n >= 1 + nt.arity:
